@@ -160,6 +160,15 @@ func c13Case(c *checker, api string, t byte, b []byte) {
 	key := fmt.Sprintf("%s %d %s", api, t, hx(b))
 	var got uint64
 	var modelOp string
+	switch api {
+	case "env-stream", "env-decode":
+		wdEnter("A env " + hx(b))
+	case "frame":
+		wdEnter("A frame " + hx(b))
+	default:
+		wdEnter(fmt.Sprintf("A stream %d %s", t, hx(b)))
+	}
+	defer wdLeave()
 	p := safely(func() {
 		switch api {
 		case "stream":
